@@ -47,8 +47,12 @@ def instance_alias(s0):
 
 def uses_of(A, s0, f0, rnd):
     """[(kind, annot, spelling)]: every way the alias node A (bound to spelling s0 of semantic field f0) is used."""
-    others = [g for g in (FLT, STR, BOOL, INT) if P.norm_field(g) != P.norm_field(f0)
-              and not (f0["t"] == "anyof" and any(P.norm_field(g) == P.norm_field(h) for h in f0["fs"]))]
+    pool = (FLT, STR, BOOL, INT, {"t": "mapany", "sz": [None, None]},
+            {"t": "seqany", "k": "list", "sz": [None, None], "uniq": False})
+    others = [g for g in pool if P.norm_field(g) != P.norm_field(f0)
+              and not (f0["t"] in ("anyof", "oneof", "allof", "not")
+                       and any(P.norm_field(g) == P.norm_field(h) for h in f0["fs"]))]
+    others = (others + list(pool))[:2]          # (a duplicate member is still a legal declaration)
     x, y = others[0], others[1]
     X = lambda kind="general": rnd.choice(P.forms(x, kind, rnd))
     Y = lambda kind="general": rnd.choice(P.forms(y, kind, rnd))
